@@ -652,6 +652,19 @@ func (in *Interp) intrinsic(name string, fn *ssa.Function, args []Value) []Value
 	if fn.Name() == "init" {
 		return nil
 	}
+	spkg := fn.Pkg
+	if spkg == nil && fn.Origin() != nil {
+		spkg = fn.Origin().Pkg // instantiation of a generic function
+	}
+	if spkg == nil && fn.Parent() != nil {
+		spkg = fn.Parent().Pkg
+	}
+	if len(fn.Blocks) > 0 && spkg != nil && pureStdlib[spkg.Pkg.Path()] {
+		// pure standard-library code with a Go body (sorting, slices, ...): executed like
+		// repository code rather than refused, so that a change that starts using it is still decided
+		in.stubs["stdlib body executed: "+spkg.Pkg.Path()] = true
+		return in.callFunction(fn, args, nil)
+	}
 	panic(unsupported{"call to " + name + " (no body / outside the repository, no contract)"})
 }
 
@@ -1199,3 +1212,5 @@ func (in *Interp) poolOp(name string, fn *ssa.Function, args []Value) []Value {
 	}
 	return []Value{&IfaceV{}}
 }
+
+var pureStdlib = map[string]bool{"sort": true, "slices": true, "cmp": true, "math/bits": true, "container/heap": true, "container/list": true, "internal/bytealg": false}
